@@ -56,3 +56,23 @@ func zxC16IfCondition() {
 	}
 	vrtReach("C16.E")
 }
+
+// E.S (C15 / C03) — fields are identified, in the table definition, in the filestore header and
+// in every column mapping, by the text of their expression (core.Field.String / Equals). Two
+// different expression trees of the specification table must therefore have different texts:
+// otherwise redefining a field from one to the other is taken for "unchanged" and the new field
+// silently inherits the old one's stored state and keeps its old semantics.
+//
+//zx:harness prop=C15+C03 id=E.S tier=quick
+func zxC15ExprTexts() {
+	specs := zxSpecs()
+	i := vrtShape("i", len(specs))
+	j := vrtShape("j", len(specs))
+	if i >= j {
+		vrtReach("E.S")
+		return
+	}
+	a, b := specs[i].build(), specs[j].build()
+	vrtAssert(a.String() != b.String(), "different expressions have different texts: "+a.String()+" is the text of spec "+zxItoa(i)+" and of spec "+zxItoa(j))
+	vrtReach("E.S")
+}
